@@ -17,7 +17,7 @@ class PathEnd(Exception):
 
 class Obligation:
     __slots__ = ('name', 'kind', 'hyps', 'goal', 'func', 'line', 'props', 'note', 'case',
-                 'axioms', 'entry_syms')
+                 'axioms', 'entry_syms', 'cname')
 
     def __init__(self, name, kind, hyps, goal, func, line=0, props=(), note='', case='',
                  axioms=(), entry_syms=None):
@@ -32,6 +32,7 @@ class Obligation:
         self.case = case
         self.axioms = list(axioms)
         self.entry_syms = entry_syms or {}
+        self.cname = func
 
 
 class State:
